@@ -123,6 +123,180 @@ def CNT(tier):
     return IntDom(1, 3 if tier == "quick" else 4)
 OUT = ["save/reopen and isolation between documents (object store, protobuf, zip)", "add_table/add_sheet cloning",
        "shapes beyond 3x2 and counts beyond 3 (loops over cells are concrete)"]
+# ------------------------------------------------------------------------------------------------ table cloning
+import numbers_parser.model as modelmod  # noqa: E402
+from numbers_parser.generated import TSPMessages_pb2 as TSPMessages  # noqa: E402
+from numbers_parser.generated import TSTArchives_pb2 as TSTArchives  # noqa: E402
+from numbers_parser.model import _NumbersModel  # noqa: E402
+from numbers_parser.numbers_cache import Cacheable  # noqa: E402
+
+
+class Bag:
+    """protobuf message as an attribute bag: unknown attributes are empty sub-messages / lists as needed"""
+
+    def __init__(self, **kw):
+        self.__dict__.update(kw)
+
+    def __getattr__(self, name):
+        sub = Bag()
+        self.__dict__[name] = sub
+        return sub
+
+    def MergeFrom(self, other):
+        self.__dict__.update(other.__dict__)
+
+    def append(self, item):
+        self.__dict__.setdefault("_items", []).append(item)
+
+    def ListFields(self):
+        return []
+
+
+def bag(eng=None, *a, **kw):
+    return Bag(**kw)
+
+
+class CloneProxy:
+    def __init__(self, real, **over):
+        self._real = real
+        self.__dict__.update(over)
+
+    def __getattr__(self, name):
+        return getattr(self._real, name)
+
+
+class ListTypes:
+    STRING = 1
+    STYLE = 4
+    FORMULA = 5
+
+
+FAKE_TST3 = CloneProxy(TSTArchives, DataStore=Bag, HeaderStorage=Bag, TableRBTree=Bag, TileStorage=Bag, TableModelArchive=Bag,
+                       HeaderStorageBucket=Bag, StrokeSidecarArchive=Bag, TableInfoArchive=Bag,
+                       TableDataList=Bag(ListType=ListTypes))
+FAKE_TSP3 = CloneProxy(TSPMessages, Reference=Bag)
+
+
+class FakeUUID:
+    N = [0]
+
+    def __init__(self, *a):
+        FakeUUID.N[0] += 1
+        self.n = FakeUUID.N[0]
+        self.protobuf2 = Bag(n=self.n)
+
+    def __str__(self):
+        return "uuid-%d" % self.n
+
+
+class CloneStore:
+    def __init__(self):
+        self.store = {}
+        self.next = 1000
+        self.created = []
+
+    def __getitem__(self, k):
+        return self.store[k]
+
+    def create_object_from_dict(self, iwa, d, cls):
+        self.next += 1
+        obj = Bag(**d)
+        self.store[self.next] = obj
+        self.created.append((self.next, iwa))
+        return self.next, obj
+
+    def update_object_file_store(self):
+        pass
+
+
+class NoMerges:
+    def get(self, rc):
+        return None
+
+
+class DirtyFlag:
+    def mark_dirty(self):
+        pass
+
+
+class CloneModel(Cacheable):
+    """self for the real _NumbersModel.add_table / create_string_table; everything else the two call is a no-op stub"""
+    add_table = _NumbersModel.add_table
+    create_string_table = _NumbersModel.create_string_table
+
+    def __init__(self):
+        self.objects = CloneStore()
+        self.objects.store[7] = Bag(base_data_store=Bag())          # the table that is cloned
+        self.objects.store[3] = Bag(drawable_infos=Bag())           # the sheet
+        self._table_data = {}
+        self.name_ref_cache = DirtyFlag()
+        self.refs = []
+
+    def add_component_metadata(self, object_id, parent, pattern):
+        pass
+
+    def add_component_reference(self, object_id, location=None, component_id=None, is_weak=False, parent_id=None):
+        pass
+
+    def set_reference(self, obj, ref_id):
+        obj.identifier = ref_id
+
+    def create_drawable(self, sheet_id, x, y):
+        return Bag(x=x, y=y)
+
+    def add_formula_owner(self, *a):
+        return FakeUUID()
+
+    def calculate_table_uuid_map(self):
+        pass
+
+    def recalculate_table_data(self, table_id, data):
+        pass
+
+    def calc_engine_id(self):
+        return 2
+
+    def create_caption_archive(self, table_id):
+        pass
+
+    def caption_enabled(self, table_id, enabled=None):
+        return False
+
+    def merge_cells(self, table_id):
+        return NoMerges()
+
+
+def no_refs(obj):
+    return {}
+
+
+PER_TABLE = ["stringTable", "columnHeaders", "styleTable", "formula_table", "format_table_pre_bnc"]
+
+
+def h03_clone(rows1, cols1, rows2, cols2, same_sheet):
+    """two tables added at run time share none of their per-table objects (string list, style list, formula list, format
+    list, header buckets, stroke sidecar) - neither with each other nor with the table they were cloned from: an edit
+    to one can never show up in the other"""
+    assume(1 <= rows1 <= 1000 and 1 <= cols1 <= 1000 and 1 <= rows2 <= 1000 and 1 <= cols2 <= 1000)
+    m = CloneModel()
+    a = m.add_table(3, "A", 7, 0.0, 0.0, rows1, cols1)
+    b = m.add_table(3, "B", 7 if same_sheet else a, 0.0, 0.0, rows2, cols2)
+    assert a != b and a != 7 and b != 7
+    ta, tb = m.objects[a], m.objects[b]
+    ids_a = [getattr(ta.base_data_store, f)["identifier"] for f in PER_TABLE] + [ta.stroke_sidecar.identifier] + \
+            [r.identifier for r in ta.base_data_store.rowHeaders.buckets._items]
+    ids_b = [getattr(tb.base_data_store, f)["identifier"] for f in PER_TABLE] + [tb.stroke_sidecar.identifier] + \
+            [r.identifier for r in tb.base_data_store.rowHeaders.buckets._items]
+    assert len(ids_a) == 7 and len(ids_b) == 7
+    for x in ids_a:
+        assert x not in ids_b and x != 7
+    assert len(set(ids_a)) == 7 and len(set(ids_b)) == 7
+    assert ta.number_of_rows == rows1 and ta.number_of_columns == cols1
+    assert tb.number_of_rows == rows2 and tb.number_of_columns == cols2
+    assert len(m._table_data[a]) == rows1 and len(m._table_data[b]) == rows2
+    assert m._table_data[a] is not m._table_data[b]
+
+
 HARNESSES = [
     Harness("H03-add_row", h03_add_row, lambda tier: dict(SH(tier), count=CNT(tier), start=IntDom(), at_end=BoolDom(), with_default=BoolDom()),
             bounds="start: every Python int or None; count 1..3 (quick) / 1..4 (thorough); default absent/present; shapes {1,2,3} x {1,2} (quick) / {1..4} x {1,2,3} (thorough)", outside=OUT),
@@ -135,4 +309,13 @@ HARNESSES = [
     Harness("H03-write", h03_write, lambda tier: dict(SH(tier), row=IntDom(), col=IntDom()),
             bounds="position: every Python int pair that is negative, beyond the limits, or grows the table by <= 2"),
 ]
+HARNESSES.append(
+    Harness("H03-clone", h03_clone,
+            dict(rows1=Cases([1, 3]), cols1=Cases([2]), rows2=Cases([1, 2]), cols2=Cases([2]), same_sheet=BoolDom()),
+            bounds="two consecutive add_table calls (cloning the original table, or the first clone), small concrete shapes",
+            stubs=["object store and every protobuf message = attribute bags; the helpers add_table calls besides create_string_table "
+                   "(metadata, drawable, formula owner, uuid map, tile rebuild, caption) are no-op stubs; NumbersUUID = counter"],
+            outside=["what the cloned objects contain (protobuf construction)", "add_sheet", "isolation between simultaneously open documents"],
+            patches=[(modelmod, "TSTArchives", FAKE_TST3), (modelmod, "TSPMessages", FAKE_TSP3), (modelmod, "NumbersUUID", FakeUUID),
+                     (modelmod, "field_references", no_refs)]))
 PROPERTY = "C03"
